@@ -497,3 +497,6 @@ m('c12-r7-state-drops-n-geki', 'C12', 'C12-R7', 'state:every-field', diff='selft
 m('c05-r5-dual-stages-overflow-column-set', 'C05', 'C05-R5', 'column-set-width', diff='selftest/seed_diffs/C05-7.diff')
 m('c02-r8-speed-skipped-in-forwarder-only', 'C02', 'C02-R8', 'osu:same-feeding', diff='selftest/seed_diffs/C03-7.diff')
 m('c03-r3-speed-skipped-in-forwarder-only', 'C03', 'C03-R3', 'osu:same-feeding', diff='selftest/seed_diffs/C03-7.diff')
+m('c02-r9-catcher-width-cap-one-replica', 'C02', 'C02-R9', 'catch:Movement::new:arg0', diff='selftest/seed_diffs/C02-8.diff')
+m('c03-r4-catcher-width-cap-misplaced', 'C03', 'C03-R4', 'catch:Movement::new:arg0', diff='selftest/seed_diffs/C03-8.diff')
+m('c18-r7-taiko-reads-lazer', 'C18', 'C18-R7', 'lazer:Taiko:unread', diff='selftest/seed_diffs/C18-8.diff')
